@@ -648,6 +648,16 @@ def C11_circuit() -> Circuit:
     return ctl_circuit()
 
 
+def wf_collect(op: Operation) -> bool:
+    """Module-level collection filter shipped inside ForEachBlockPass."""
+    return isinstance(op.gate, CircuitGate)
+
+
+def wf_replace(circuit: Circuit, op: Operation) -> bool:
+    """Module-level replace filter shipped inside ForEachBlockPass."""
+    return True
+
+
 def wf_run(xs: list) -> bool:
     rt.begin()
     S = rt.SHARD
@@ -657,6 +667,11 @@ def wf_run(xs: list) -> bool:
     except K.OutOfBound:
         return True
     wf = Workflow([K.build_pass(tree, 3), K.Body(99)], 'named')
+    from bqskit.passes.control.foreach import ForEachBlockPass
+    for p in all_passes(wf, []):
+        if isinstance(p, ForEachBlockPass):
+            p.collection_filter = wf_collect
+            p.replace_filter = wf_replace
     st = struct(wf)
     rt.reach()
     if rt.CONCRETE:
